@@ -85,11 +85,17 @@ pub fn gen_c03(g: &mut Gen, tier: &str) {
         g.push(true, Input::new("dt_from_ts", vec![*t]));
         g.push(true, Input::new("date_from_ts", vec![*t]));
     }
+    // whole hours and whole minutes on both sides of the epoch and of 0001-01-01 (remainders taken modulo the wrong unit)
+    for base in [0i128, -62_135_596_800, -2_208_988_800] { for k in [-49i128, -48, -47, -25, -24, -23, -13, -12, -2, -1, 1, 2, 12, 23, 24, 25] { for unit in [3_600i128, 60, 43_200] {
+        let t = base + k * unit;
+        g.push(true, Input::new("dt_from_ts", vec![t]));
+        g.push(true, Input::new("date_from_ts", vec![t]));
+    } } }
     for k in 0..n {
         let t = match k % 5 {
             0 => g.rng.range(lo, hi),
             1 => g.rng.range(-100_000_000_000, 100_000_000_000),
-            2 => g.rng.range(-200_000, 200_000),
+            2 => if g.rng.chance(1, 2) { g.rng.range(-200_000, 200_000) } else { g.rng.range(-3_000_000, 3_000_000) * *g.rng.pick(&[60i128, 3_600, 86_400]) },
             3 => if g.rng.chance(1, 2) { g.rng.range(hi - 200_000, hi + 200_000) } else { g.rng.range(lo - 200_000, lo + 200_000) },
             _ => g.rng.range(i64::MIN as i128, i64::MAX as i128),
         };
